@@ -162,3 +162,12 @@ func RunSub(name string, args []string) int {
 	}
 	return f(args)
 }
+
+func contains(l []string, s string) bool {
+	for _, x := range l {
+		if x == s {
+			return true
+		}
+	}
+	return false
+}
